@@ -32,6 +32,7 @@ class Unsupported(Exception):
 
 
 SOLVER_TIMEOUT_MS = 60000
+RESET_HOOK = [None]  # called before every path (restores module-level state of the code under test)
 
 
 class Ctx:
@@ -180,6 +181,8 @@ def explore_job(fn, prefix, max_paths=200, max_seconds=20.0, on_path=None):
         ctx = Ctx(prefix)
         Ctx.cur = ctx
         outcome = None
+        if RESET_HOOK[0] is not None:
+            RESET_HOOK[0]()
         try:
             outcome = fn(ctx)
         except Abort:
